@@ -153,19 +153,20 @@ def gen_value(rng, i, kind):
             return rng.choice([['none'], ['bool', True], ['bool', False]])
         if kind == 'alike':
             return [rng.choice(['int', 'float']), rng.choice([0, 1])]
-        return rng.choice([['str', 'True'], ['int', 2]])
+        return rng.choice([['str', 'True'], ['int', 2], ['str', '']])
     if i in (11, 12, 13, 14):
         if kind == 'valid':
             return rng.choice([['cls', 3], ['cls', 4], ['cls', 5], ['cls', 10], ['cls', 12], ['none'], ['cls', i - 11 if i < 14 else 0]])
         if kind == 'alike':
             return ['cls', rng.choice([0, 1, 2])]
-        return rng.choice([['cls', 20], ['cls', 21], ['int', 1], ['str', 'ValueError']])
+        # falsy junk too: a validation written as `if value and ...` would let it through
+        return rng.choice([['cls', 20], ['cls', 21], ['int', 1], ['str', 'ValueError'], ['int', 0], ['str', ''], ['bool', False]])
     if i == 16:
         if kind == 'valid':
             return rng.choice([['none'], ['cls', 10], ['cls', 11], ['cls', 12], ['warndefault']])
         if kind == 'alike':
             return ['warndefault']
-        return rng.choice([['cls', 3], ['cls', 20], ['int', 0], ['str', 'UserWarning']])
+        return rng.choice([['cls', 3], ['cls', 20], ['int', 0], ['str', 'UserWarning'], ['str', ''], ['bool', False]])
     raise ValueError(i)
 
 
